@@ -33,6 +33,7 @@ type MaskCfg struct {
 	AppliedField  string    `json:"applied_field,omitempty"`
 	AppliedValue  string    `json:"applied_value,omitempty"`
 	MetricName    string    `json:"metric_name,omitempty"`
+	MetricLabels  []string  `json:"metric_labels,omitempty"`
 }
 
 type PluginCfg struct {
